@@ -168,21 +168,28 @@ Special(h, cs, i, acc) ==
 S(h, cs) == Special(h, cs, 1, [out |-> Headers[h], op |-> "", args |-> <<>>, nxt |-> ""]) \o <<O("endchar")>>
 
 (* ---- the machine ---------------------------------------------------------------------- *)
+(* The run-structured programs are successors of a seed state, not initial states: TLC checks
+   initial states on its main thread, whose stack the harness cannot enlarge, and the long
+   programs recurse deeper than the short ones.                                          *)
 Init ==
   \/ /\ kind = "small"
      /\ hdr \in 1..Len(Headers)
      /\ \E m \in FirstMoves : cmds = <<m>>
-  \/ /\ kind = "run"
+  \/ /\ kind = "seed"
      /\ hdr = 1
-     /\ \E u \in RunKinds, k \in RunLens : cmds = <<Mv(1, 1)>> \o [i \in 1..k |-> Unit(u, i, k)]
+     /\ cmds = <<Mv(1, 1)>>
 
 Next ==
-  /\ kind = "small"
-  /\ Len(cmds) - 1 < (IF hdr = 1 THEN MaxCmds ELSE MaxCmdsHdr)
-  /\ \E c \in Alphabet(hdr, cmds) :
-        /\ (Len(cmds) - 1 >= FullDepth /\ hdr = 1) => (c \in Core /\ AllCore(cmds))
-        /\ cmds' = Append(cmds, c)
-  /\ UNCHANGED <<kind, hdr>>
+  \/ /\ kind = "small"
+     /\ Len(cmds) - 1 < (IF hdr = 1 THEN MaxCmds ELSE MaxCmdsHdr)
+     /\ \E c \in Alphabet(hdr, cmds) :
+           /\ (Len(cmds) - 1 >= FullDepth /\ hdr = 1) => (c \in Core /\ AllCore(cmds))
+           /\ cmds' = Append(cmds, c)
+     /\ UNCHANGED <<kind, hdr>>
+  \/ /\ kind = "seed"
+     /\ kind' = "run"
+     /\ \E u \in RunKinds, k \in RunLens : cmds' = <<Mv(1, 1)>> \o [i \in 1..k |-> Unit(u, i, k)]
+     /\ UNCHANGED hdr
 
 (* ---- internal laws ------------------------------------------------------------------- *)
 CxCFF == Cx("cff")
@@ -200,7 +207,8 @@ Law_Canon(rg) == LET c == Canon(rg.path, FALSE) IN
                  /\ Canon(Canon(rg.path, TRUE), FALSE) = c
                  /\ Len(c) <= Len(rg.path)
 \* one invariant so that each state's two programs are interpreted once; a violated law is named
-Laws == LET rg == RG  rs == RS IN
+Laws == kind = "seed" \/
+        LET rg == RG  rs == RS IN
         /\ Law_Legal(rg, rs)  \/ PrintT(<<"LAW", "Legal">>) = FALSE
         /\ Law_Forms(rg, rs)  \/ PrintT(<<"LAW", "Forms">>) = FALSE
         /\ Law_Stack(rg, rs)  \/ PrintT(<<"LAW", "Stack">>) = FALSE
@@ -254,6 +262,6 @@ ASSUME Canon(<< << <<0, 0, 0>>, <<1, 5, 0>>, <<1, 2, 0>>, <<1, 2, 3>>, <<2, 2, 3
 ASSUME Canon(<< << <<0, 0, 0>>, <<1, 5, 0>>, <<1, 0, 0>>, <<1, 0, 3>>, <<2, 0, 7, 0, 9, 0, 1>> >> >>, FALSE)
        = << << <<0, 0, 0>>, <<1, 0, 1>> >> >>
 
-Emit == PrintT(<<"GEN", ToJson([g |-> G(hdr, cmds), s |-> S(hdr, cmds), k |-> kind,
+Emit == kind = "seed" \/ PrintT(<<"GEN", ToJson([g |-> G(hdr, cmds), s |-> S(hdr, cmds), k |-> kind,
                                  w |-> IF HdrWidth[hdr] THEN W ELSE -1])>>)
 =============================================================================
